@@ -5,7 +5,9 @@ export GOFLAGS=-mod=mod GOPROXY=off GOSUMDB=off GOTOOLCHAIN=local
 P=$1; K=$2; OUT=$3; shift 3
 CHECKS="$@"; [ -z "$CHECKS" ] && CHECKS="$P"
 S=/tmp/ev/$P-$K
-rm -rf $S; mkdir -p /tmp/ev; cp -r ${EVAL_BASE:-/repo} $S; rm -rf $S/.git
+rm -rf $S; mkdir -p /tmp/ev
+# the scratch copy is /repo's HEAD (not its working tree: tools/confirm_seeded.sh may have a patch applied there)
+if [ -n "$EVAL_BASE" ]; then cp -r $EVAL_BASE $S; rm -rf $S/.git; else mkdir -p $S; git -C /repo archive HEAD | tar -x -C $S; fi
 cd $S || exit 2
 R="$P-$K:"
 cp $OUT/demo${K}_test.go . 2>/dev/null
